@@ -7,6 +7,7 @@
 import Std.Data.String.ToInt
 import Prov.Xml
 import Prov.Lemmas.Text
+import Prov.Lemmas.Iso
 import Prov.Lemmas.NsMgr
 
 namespace Prov.C02
@@ -69,6 +70,19 @@ theorem c02_int (nsmap) (hstd : StdMap nsmap) (ft : Bool) (attr : QName) (ha : P
   refine ⟨_, readBack_typed nsmap hstd ft attr _ "int" _ hname henc (by decide), ?_⟩
   have : (toString n).toInt? = some n := Int.toInt?_repr n
   simp only [autoLiteral, hp, parseXsd, parseInt, this]
+
+/-- **datetime** (as an attribute value outside the PROV namespace): xsi:type="xsd:dateTime", text `isoformat()`;
+    read back and stored as the same date-time — for every valid date-time (`parseIso_iso`) -/
+theorem c02_datetime (nsmap) (hstd : StdMap nsmap) (ft : Bool) (attr : QName) (ha : PlainAttr attr)
+    (hname : ∃ q, xmlQName nsmap ("p:" ++ attr.loc) = .ok q) (t : DateTime) (hv : ValidDT t)
+    (hpfx : attr.ns.pfx ≠ "prov") (hlex : strStartsWithProv (Value.dt t).pyStrFull = false) (m : NsMgr) :
+    ∃ av, readBack nsmap ft attr (.dt t) = .ok av ∧ (autoLiteral m av none).2 = .ok (.dt t) := by
+  have hp : xsdParserOf (⟨nsXsd, "dateTime"⟩ : QName) = some .dateTime := by decide
+  have hpfx' : (attr.ns.pfx != "prov") = true := by simpa using hpfx
+  have henc : encodeXmlAttr ft attr (.dt t) = { xsiType := some ("xsd:" ++ "dateTime"), lang := none, ref := none, text := some t.iso } := by
+    simp [encodeXmlAttr, ha.notRef, ha.notTime, ha.notLabel, hlex, hpfx']
+  refine ⟨_, readBack_typed nsmap hstd ft attr _ "dateTime" _ hname henc (by decide), ?_⟩
+  simp only [autoLiteral, hp, parseXsd, parseIso_iso t hv]
 
 /-- **bool**: xsi:type="xsd:boolean", text lower-cased; read back and stored as the bool -/
 theorem c02_bool (nsmap) (hstd : StdMap nsmap) (ft : Bool) (attr : QName) (ha : PlainAttr attr)
